@@ -238,3 +238,132 @@ func ZZ_C11_Log(layout, types, nt, match int) {
 	zzvrf.Assert(ok && sn == "src1", "src_name-stamp")
 	zzvrf.Reach("end")
 }
+
+// ZZ_C11_Insert: Integration.Insert over a block with several items; the rows
+// are read when COPY drains them (as pgx does), so values held by reference
+// are observed at the time they are stored.
+//   mode 0: transaction indexing, 2 transactions
+//   mode 1: trace indexing, 1 transaction with 2 trace actions
+//   mode 2: log indexing, 1 transaction with 2 logs of the event
+func ZZ_C11_Insert(mode int) {
+	var ev Event
+	var bds []BlockData
+	switch mode {
+	case 0:
+		bds = []BlockData{{Name: "tx_idx", Column: "tx_idx"}, {Name: "tx_value", Column: "tx_value"}, {Name: "tx_to", Column: "tx_to"}, {Name: "tx_nonce", Column: "tx_nonce"}}
+	case 1:
+		bds = []BlockData{{Name: "trace_action_idx", Column: "trace_action_idx"}, {Name: "trace_action_value", Column: "trace_action_value"}, {Name: "trace_action_from", Column: "trace_action_from"}, {Name: "trace_action_call_type", Column: "trace_action_call_type"}}
+	case 2:
+		ev = Event{Name: "Ev", Inputs: []Input{{Name: "a", Type: "uint256", Indexed: true, Column: "c_a"}}}
+		bds = []BlockData{{Name: "log_idx", Column: "log_idx"}, {Name: "log_addr", Column: "log_addr"}}
+	}
+	tbl := wpg.Table{Name: "t"}
+	if mode == 2 {
+		tbl.Columns = append(tbl.Columns, wpg.Column{Name: "c_a", Type: "numeric"})
+	}
+	for _, bd := range bds {
+		tbl.Columns = append(tbl.Columns, wpg.Column{Name: bd.Column, Type: "x"})
+	}
+	ig, err := New("ig1", ev, bds, tbl, Notification{}, "")
+	zzvrf.Assert(err == nil, "new-ok")
+
+	blocks := make([]eth.Block, 1)
+	b := &blocks[0]
+	b.Header.Number = eth.Uint64(zzvrf.U64("block_num"))
+	ntx := 1
+	if mode == 0 {
+		ntx = 2
+	}
+	b.Txs = make(eth.Txs, ntx)
+	type item struct {
+		u64a, u64b uint64
+		bytes      []byte
+	}
+	var items []item
+	for ti := range b.Txs {
+		t := &b.Txs[ti]
+		t.Idx = eth.Uint64(zzvrf.U64("tx_idx"))
+		t.PrecompHash = zzvrf.Bytes("tx_hash", 32, 32)
+		switch mode {
+		case 0:
+			it := item{u64a: zzvrf.U64("tx_value"), u64b: zzvrf.U64("tx_nonce"), bytes: zzvrf.Bytes("tx_to", 20, 20)}
+			t.Value = uint256.Int{it.u64a, 0, 0, 0}
+			t.Nonce = eth.Uint64(it.u64b)
+			t.To = it.bytes
+			items = append(items, it)
+		case 1:
+			t.TraceActions = make([]eth.TraceAction, 2)
+			for ai := range t.TraceActions {
+				it := item{u64a: zzvrf.U64("trace_value"), u64b: uint64(ai), bytes: zzvrf.Bytes("trace_from", 20, 20)}
+				t.TraceActions[ai] = eth.TraceAction{Idx: uint64(ai), From: it.bytes, CallType: "call", Value: uint256.Int{it.u64a, 0, 0, 0}}
+				items = append(items, it)
+			}
+		case 2:
+			t.Logs = make(eth.Logs, 2)
+			for li := range t.Logs {
+				it := item{u64a: zzvrf.U64("topic1.low"), u64b: zzvrf.U64("log_idx"), bytes: zzvrf.Bytes("log_addr", 20, 20)}
+				topic1 := make([]byte, 32)
+				for k := 0; k < 8; k++ {
+					topic1[31-k] = byte(it.u64a >> (8 * uint(k)))
+				}
+				t.Logs[li] = eth.Log{Idx: eth.Uint64(it.u64b), Address: it.bytes, Topics: []eth.Bytes{append([]byte(nil), ig.sighash...), topic1}}
+				items = append(items, it)
+			}
+		}
+	}
+	ctx := wctx.WithSrcName(context.Background(), "src1")
+	conn := &zzConn{}
+	var ierr error
+	panicked := false
+	func() {
+		defer func() {
+			if r := recover(); r != nil {
+				panicked = true
+			}
+		}()
+		_, ierr = ig.Insert(ctx, &sync.Mutex{}, conn, blocks)
+	}()
+	zzvrf.Assert(!panicked && ierr == nil, "no-panic-no-error")
+	if panicked || ierr != nil {
+		return
+	}
+	zzvrf.Assert(len(conn.rows) == len(items), "one-row-per-item")
+	if len(conn.rows) != len(items) {
+		return
+	}
+	col := func(name string) int {
+		for i, c := range conn.cols {
+			if c == name {
+				return i
+			}
+		}
+		return -1
+	}
+	for i, it := range items {
+		row := conn.rows[i]
+		switch mode {
+		case 0:
+			v, ok := row[col("tx_value")].(*uint256.Int)
+			zzvrf.Assert(ok && v[0] == it.u64a, "tx_value-of-its-own-transaction")
+			n, ok := row[col("tx_nonce")].(eth.Uint64)
+			zzvrf.Assert(ok && uint64(n) == it.u64b, "tx_nonce-of-its-own-transaction")
+			to, ok := row[col("tx_to")].([]byte)
+			zzvrf.Assert(ok && zzvrf.BytesEq(to, it.bytes), "tx_to-of-its-own-transaction")
+		case 1:
+			v, ok := row[col("trace_action_value")].(*uint256.Int)
+			zzvrf.Assert(ok && v[0] == it.u64a, "trace_value-of-its-own-action")
+			ix, ok := row[col("trace_action_idx")].(uint64)
+			zzvrf.Assert(ok && ix == it.u64b, "trace_action_idx-counts-from-zero")
+			fr, ok := row[col("trace_action_from")].([]byte)
+			zzvrf.Assert(ok && zzvrf.BytesEq(fr, it.bytes), "trace_from-of-its-own-action")
+		case 2:
+			v, ok := row[col("c_a")].(*uint256.Int)
+			zzvrf.Assert(ok && v[0] == it.u64a, "indexed-input-of-its-own-log")
+			li, ok := row[col("log_idx")].(eth.Uint64)
+			zzvrf.Assert(ok && uint64(li) == it.u64b, "log_idx-of-its-own-log")
+			la, ok := row[col("log_addr")].([]byte)
+			zzvrf.Assert(ok && zzvrf.BytesEq(la, it.bytes), "log_addr-of-its-own-log")
+		}
+	}
+	zzvrf.Reach("end")
+}
